@@ -49,9 +49,8 @@ def gen_cases(ctx):
             pg = gen.random_pg(rng, cls, n_range=(1, 12) if ctx.tier == "quick" else (1, 20), alphabet=rng.choice([gen.SMALL, gen.WIDE, tuple(range(1, 119))]), p_none=rng.choice([0, 0.3]), p_stereo=0.8, p_change=0.5, p_role=0.5, one_sided_bond_desc=0.3, max_deg=rng.choice([3, 4, 5, 6, 6]))
             pg = _big_ids(rng, pg)
         yield {"cls": cls, "pg": pg_to_json(pg), "bseed": rng.randrange(1 << 30)}
-    for nsz in gen.SCALE_SIZES[ctx.tier]:
-        for cls in CLASS_NAMES:
-            yield {"cls": cls, "scale": nsz, "gseed": rng.randrange(1 << 30), "bseed": rng.randrange(1 << 30)}
+    for k, nsz, cls, seed in gen.scale_specs(ctx, rng):
+        yield {"cls": cls, "scale": nsz, "gseed": seed, "bseed": seed // 3}
 
 
 def check_case(ctx, case):
